@@ -607,7 +607,7 @@ func runMAPEQ(c *Ctx, r *Result, rule string, fns []*ssa.Function) int {
 			if bad == "" {
 				o.Verdict, o.Reason = Discharged, "the looked-up member is used only after IsValid() has shown that the key exists"
 			} else {
-				o.Verdict, o.Reason = Finding, "the member looked up in the other map is used (" + bad + ") without a dominating IsValid(): a key that is missing there is taken for a member (a missing member equals a null one)"
+				o.Verdict, o.Reason = Finding, "the member looked up in the other map is used ("+bad+") without a dominating IsValid(): a key that is missing there is taken for a member (a missing member equals a null one)"
 			}
 			r.Add(o)
 		}
